@@ -40,6 +40,12 @@ CONSTANTS ClipFiles,   \* set of <<fr, te_p, te_q, tden, ch, N>> : files on whic
                        \* from header rate x time expansion; all clips are enumerated on them as on ClipFiles
           HeaderRate,  \* FALSE: load_clip builds its time axis from recording.samplerate (the implementation) |
                        \* TRUE: from header rate x time_expansion (seeded change C15-r7sb1)
+          ChainSrcs,   \* set of <<fr, te_p, te_q, tden, ch, N>> : recordings on which chains resample(resample(x, t1), t2) are enumerated
+          ChainPairs,  \* set of <<t1, t2>>
+          ChainInexact,\* FALSE: only chains whose intermediate length N*t1/sr is exact (the others drift by more than a step in the
+                       \*        implementation as found: finding candidate, history/MC_AudioAxis_found_chain.*) | TRUE: all
+          StaleRate,   \* FALSE: each resample takes the rate of its input from the input's advertised step (the implementation) |
+                       \* TRUE: from a samplerate attribute that resample copies unchanged (seeded change C15-r10sb1)
           AliasAttrs   \* FALSE: resample builds fresh attributes for the new time axis (the implementation) |
                        \* TRUE: it writes step = 1/target into the live attrs of the source's time coordinate (seeded change C15-sb2)
 VARIABLES c, pc, m
@@ -49,7 +55,7 @@ vars == <<c, pc, m>>
 Mk(kind, f, s, e, src, w, h, tg) ==
     [kind |-> kind, fr |-> f[1], te |-> <<f[2], f[3]>>, tden |-> f[4], ch |-> f[5], N |-> f[6],
      s |-> s, e |-> e, src |-> src, w |-> w, h |-> h, target |-> tg, pre |-> 0,
-     hist |-> "none", N2 |-> f[6], base2 |-> 0, decl |-> 0]
+     hist |-> "none", N2 |-> f[6], base2 |-> 0, decl |-> 0, ops |-> <<>>]
 WithDecl(k, d) == [k EXCEPT !.decl = d]
 MaxTickD(f) == ((f[6] + Pad) * f[4]) \div f[7] + 1
 WithPre(k, p) == [k EXCEPT !.pre = p]
@@ -73,6 +79,7 @@ m0 == [off |-> 0, len |-> 0, pos |-> 0, rows |-> <<>>, rate |-> 0, t0 |-> 0, d |
        fd |-> <<>>, fstep |-> 0, np0 |-> 0, np |-> 0, nov |-> 0, num |-> 0, raised |-> "",
        pass |-> 1, fN |-> 0, fbase |-> 0,     \* which load this is; the file as it is now: frames, first value - 1
        cache |-> <<>>,                         \* ReadCache variant: <<rows>> of the cached block (<<>>: nothing cached)
+       k |-> 1, crate |-> 0, cd |-> <<>>, cstep |-> 0,   \* chains: next operation, advertised rate of the current array, final axis
        sstep |-> <<1, 1>>,        \* the step the SOURCE array advertises, in samples (a rational <<p, q>>)
        sobs |-> <<0, 0, 0>>]      \* re-observation of the source after the call(s): <<frames, p, q>>
 
@@ -93,6 +100,11 @@ Init == /\ pc = "start"
            \/ \E f \in ResSrcs : \E tg \in Targets : \E p \in {0} \cup Pres :
                  LET k == Mk("resamp", f, f[7], f[8], SrcKind(f), 0, 0, tg)
                  IN  ImplNum(k, SrcN(k)) <= MaxNum /\ PreNum(k, p) <= MaxNum /\ c = WithPre(k, p)
+           \/ \E f \in ChainSrcs : \E p \in ChainPairs :
+                 /\ ChainInexact \/ (f[6] * p[1]) % SrF(f) = 0
+                 /\ (f[6] * p[1]) \div SrF(f) >= 2 /\ (((f[6] * p[1]) \div SrF(f)) * p[2]) \div p[1] \in 1..MaxNum
+                 /\ c = [Mk("chain", <<f[1], f[2], f[3], f[4], f[5], f[6]>>, 0, 0, "rec", 0, 0, 0)
+                           EXCEPT !.ops = <<<<"resamp", p[1], 0>>, <<"resamp", p[2], 0>>>>]
         /\ m = [m0 EXCEPT !.fN = c.N]
 
 Stay == UNCHANGED c
@@ -198,13 +210,31 @@ SpecFrames == /\ pc = "triage" /\ ~ImplSpecRaises(c, SrcN(c))
                                     !.fstep = m.np]
               /\ pc' = "reobs" /\ Stay
 
+(* ---- chains of resample on one loaded recording: one action per operation.  Each resample computes
+        num = int(size * target * step) from the ADVERTISED step of its input, while scipy spaces the new coordinates over the
+        span of the input's coordinates: the original N/sr seconds, whatever the advertised steps said ---- *)
+ChainStart == /\ pc = "start" /\ c.kind = "chain"
+              /\ m' = [m EXCEPT !.len = c.N, !.crate = Sr(c), !.k = 1]
+              /\ pc' = "chain" /\ Stay
+ChainRes   == /\ pc = "chain" /\ m.k <= Len(c.ops)
+              /\ LET t   == c.ops[m.k][2]
+                     num == (m.len * t) \div (IF StaleRate THEN Sr(c) ELSE m.crate)
+                 IN  IF num >= 1 /\ m.len >= 2
+                     THEN m' = [m EXCEPT !.len = num, !.crate = t, !.k = m.k + 1] /\ pc' = "chain"
+                     ELSE m' = [m EXCEPT !.raised = "ZeroDivisionError"] /\ pc' = "raised"
+              /\ Stay
+\* final axis in units of 1/(sr * len * crate): spacing N/(sr*len) = N*crate, advertised 1/crate = sr*len
+ChainEnd   == /\ pc = "chain" /\ m.k > Len(c.ops)
+              /\ m' = [m EXCEPT !.cd = [i \in 1..m.len |-> (i - 1) * c.N * m.crate], !.cstep = Sr(c) * m.len]
+              /\ pc' = "reobs" /\ Stay
+
 (* ---- after the call(s): look at the source array again ---- *)
 Reobserve == /\ pc = "reobs"
              /\ m' = [m EXCEPT !.sobs = <<SrcN(c), m.sstep[1], m.sstep[2]>>]
              /\ pc' = "done" /\ Stay
 
 Next == Rec \/ ClipArith \/ SeekFail \/ Seek \/ Read \/ AxisEmpty \/ Axis
-        \/ Between \/ Pre \/ ResArith \/ ResRaise \/ ResAxis \/ SpecArith \/ SpecRaise \/ SpecFrames \/ Reobserve
+        \/ ChainStart \/ ChainRes \/ ChainEnd \/ Between \/ Pre \/ ResArith \/ ResRaise \/ ResAxis \/ SpecArith \/ SpecRaise \/ SpecFrames \/ Reobserve
 Spec == Init /\ [][Next]_vars /\ WF_vars(Next)
 
 Export == pc \in {"done", "raised"} => PrintT(<<"CASE", ToJson(c)>>)
@@ -227,6 +257,11 @@ Q_DeclFiles   == {<<8, 1, 1, 64, 1, 5, 16>>, <<12, 1, 1, 32, 2, 4, 8>>, <<5512, 
                   <<83333, 3, 1, 1000000, 1, 3, 250000>>, <<8000, 1, 1, 32004, 2, 4, 8001>>}
 T_DeclFiles   == Q_DeclFiles \cup {<<4, 2, 1, 64, 2, 9, 16>>, <<16, 1, 2, 64, 1, 7, 16>>, <<5512, 8, 1, 176400, 2, 7, 44100>>,
                                    <<10, 1, 1, 44, 1, 6, 11>>}
+Q_ChainSrcs   == {<<8, 1, 1, 32, 1, 16>>, <<16, 1, 2, 32, 2, 24>>, <<10, 1, 1, 40, 1, 20>>, <<16000, 1, 1, 64000, 1, 64>>}
+Q_ChainPairs  == {<<4, 6>>, <<4, 2>>, <<4, 12>>, <<2, 3>>, <<16, 12>>, <<5, 4>>, <<8000, 12000>>, <<8000, 4000>>, <<4000, 6000>>}
+\* as found (history): inexact intermediate lengths
+F_ChainSrcs   == Q_ChainSrcs \cup {<<8, 1, 1, 32, 1, 13>>, <<16000, 1, 1, 64000, 1, 101>>}
+F_ChainPairs  == Q_ChainPairs \cup {<<4, 24>>, <<8000, 48000>>}
 Q_Pres        == {3, 12, 22050}
 Q_PreSpecSrcs == {<<8, 1, 1, 32, 2, 16, 10, 50>>, <<22050, 1, 1, 88200, 1, 12, 0, 0>>}
 Q_Targets  == {1, 2, 3, 4, 5, 6, 7, 8, 9, 10, 12, 16, 20, 186, 279, 22050, 44100, 48000}
@@ -257,6 +292,10 @@ ImplTimeAxis       == pc = "done" => AxisReqI(m.d, m.step)
 ImplFreqAxis       == (pc = "done" /\ c.kind = "spec") => AxisReqI(m.fd, m.fstep)
 \* an array that told the truth when it was produced still does after it has been used as a source:
 \* its coordinates are the sample instants, so the advertised step p/q samples must keep every i within one step of i*p/q
+\* chains: the final axis agrees with its advertised step -- when every intermediate length was exact
+ChainExactI  == \A j \in 1..(Len(c.ops) - 1) : (c.N * c.ops[j][2]) % Sr(c) = 0
+ImplChainAxis      == (pc = "done" /\ c.kind = "chain" /\ ChainExactI) => AxisReqI(m.cd, m.cstep)
+ImplChainAxisAll   == (pc = "done" /\ c.kind = "chain") => AxisReqI(m.cd, m.cstep)      \* (history: violated as found)
 ImplSourceTruthful == c.kind \in {"resamp", "spec"} =>
                          /\ AxisWithinRatI(SrcN(c), m.sstep[1], m.sstep[2])
                          /\ pc = "done" => m.sobs[1] = SrcN(c) /\ AxisWithinRatI(m.sobs[1], m.sobs[2], m.sobs[3])
